@@ -416,8 +416,8 @@ fn drive_lru(a: &Args, tr: &mut Tracer, per_subject: &mut serde_json::Map<String
                         45..=66 => "get",
                         67..=75 => "remove",
                         76..=83 => "contains",
-                        84..=89 => "len",
-                        90..=92 => "clear",
+                        84..=90 => "len",
+                        91..=92 => "clear",
                         _ => "probe",
                     };
                     ops.push((op, k, v));
@@ -1002,7 +1002,7 @@ fn replay(a: &Args) {
     let chunks = 4usize;
     let jobs: Vec<(usize, usize)> = (0..subs.len()).flat_map(|s| (0..chunks).map(move |c| (s, c))).collect();
     let next = std::sync::atomic::AtomicUsize::new(0);
-    let results = Mutex::new(Vec::<(String, [usize; 5], Vec<String>)>::new());
+    let results = Mutex::new(Vec::<(String, [usize; 6], Vec<String>)>::new());
     let nthreads = a.get_u64("threads", 14) as usize;
     std::thread::scope(|sc| {
         for _ in 0..nthreads {
@@ -1017,11 +1017,11 @@ fn replay(a: &Args) {
             });
         }
     });
-    let mut per: std::collections::BTreeMap<String, [usize; 5]> = Default::default();
+    let mut per: std::collections::BTreeMap<String, [usize; 6]> = Default::default();
     let mut files = vec![];
     for (name, n, f) in results.into_inner().unwrap() {
-        let e = per.entry(name).or_insert([0; 5]);
-        for i in 0..5 {
+        let e = per.entry(name).or_insert([0; 6]);
+        for i in 0..6 {
             e[i] += n[i];
         }
         files.extend(f);
@@ -1029,7 +1029,7 @@ fn replay(a: &Args) {
     let mut per_subject = serde_json::Map::new();
     let (mut total_exec, mut events, mut runs) = (0, 0, 0);
     for (name, n) in per {
-        per_subject.insert(name, json!({"behaviours": n[0], "mismatching": n[1], "mismatch_traces_written": n[2], "evicting_behaviours": n[4]}));
+        per_subject.insert(name, json!({"behaviours": n[0], "mismatching": n[1], "mismatch_traces_written": n[2], "evicting_behaviours": n[4], "mutating_behaviours": n[5]}));
         total_exec += n[0];
         events += n[3];
     }
@@ -1040,7 +1040,7 @@ fn replay(a: &Args) {
         "files":files,"subjects":per_subject}));
 }
 
-fn replay_subject(a: &Args, name: &str, idx: usize, behaviours: &[Value], chunk: usize, chunks: usize) -> (String, [usize; 5], Vec<String>) {
+fn replay_subject(a: &Args, name: &str, idx: usize, behaviours: &[Value], chunk: usize, chunks: usize) -> (String, [usize; 6], Vec<String>) {
     let mut tr = Tracer::new(&a.out, &format!("lrub2-{idx:03}"));
     tr.max_events = 3000;
     let mut rng = Rng::new(a.seed).derive("b2sample").derive(name).derive(&chunk.to_string());
@@ -1050,7 +1050,8 @@ fn replay_subject(a: &Args, name: &str, idx: usize, behaviours: &[Value], chunk:
     let vid = |s: &Value| -> u32 { s.as_str().map(|x| x[1..].parse::<u32>().unwrap_or(1) * 10).unwrap_or(0) };
     let exp_pairs = |x: &Value| -> Value { Value::Array(x.as_array().map(|v| v.iter().map(|q| json!([kid(&q[0]), vid(&q[1])])).collect()).unwrap_or_default()) };
     let universe: Vec<u32> = (0..a.get_u64("keys", 4) as u32).collect();
-    let (mut executed, mut mism, mut written, mut evicting) = (0usize, 0usize, 0usize, 0usize);
+    let (mut executed, mut mism, mut written, mut evicting, mut mutating) = (0usize, 0usize, 0usize, 0usize, 0usize);
+    let mut written_other = 0usize;
     for (bi, b) in behaviours.iter().enumerate() {
         if bi % chunks != chunk {
             continue;
@@ -1068,6 +1069,8 @@ fn replay_subject(a: &Args, name: &str, idx: usize, behaviours: &[Value], chunk:
         let mut differs = false;
         let mut dead = false;
         let mut evicted_any = false;
+        let mut refused_any = false;
+        let mut put_ok = false;
         for st in steps {
             let op = st["op"].as_str().unwrap_or("");
             let (k, v) = (kid(&st["k"]), vid(&st["v"]));
@@ -1087,6 +1090,11 @@ fn replay_subject(a: &Args, name: &str, idx: usize, behaviours: &[Value], chunk:
                 if e["ok"] == json!(false) || e["r"] != exp_r {
                     differs = true;
                 }
+            }
+            if e["ok"] == json!(false) {
+                refused_any = true;
+            } else if op == "put" {
+                put_ok = true;
             }
             if meta.has_cb && e["ev"] != exp_pairs(&st["ev"]) {
                 differs = true;
@@ -1126,6 +1134,7 @@ fn replay_subject(a: &Args, name: &str, idx: usize, behaviours: &[Value], chunk:
                 }
                 if e["ok"] == json!(false) {
                     differs = true;
+                    refused_any = true;
                 }
                 evs.push(e);
             }
@@ -1140,13 +1149,21 @@ fn replay_subject(a: &Args, name: &str, idx: usize, behaviours: &[Value], chunk:
         if evicted_any {
             evicting += 1;
         }
+        if put_ok {
+            mutating += 1;
+        }
         let sampled = rng.below(sample_every) == 0;
         if differs {
             mism += 1;
         }
-        if (differs && written < max_mismatch_traces) || sampled {
-            if differs {
+        // every behaviour that differs WITHOUT a refused put goes to the judge (up to 400); those that
+        // involve a refusal (accepted by the contract, counted) are capped separately
+        let write_it = differs && if refused_any { written < max_mismatch_traces } else { written_other < 400 };
+        if write_it || sampled {
+            if differs && refused_any {
                 written += 1;
+            } else if differs {
+                written_other += 1;
             }
             lru_reset(&mut tr, name, cap, Some(&meta), json!({"behaviour": bi, "b2": true, "differs": differs, "universe": universe.len()}));
             for e in evs {
@@ -1156,7 +1173,7 @@ fn replay_subject(a: &Args, name: &str, idx: usize, behaviours: &[Value], chunk:
     }
     tr.close();
     let files = tr.files.iter().map(|p| p.display().to_string()).collect();
-    (name.to_string(), [executed, mism, written, tr.total_events, evicting], files)
+    (name.to_string(), [executed, mism, written + written_other, tr.total_events, evicting, mutating], files)
 }
 
 fn main() {
